@@ -21,8 +21,8 @@ import json, os, shutil, subprocess, sys, tempfile, concurrent.futures as cf
 
 VERIF = os.path.dirname(os.path.dirname(os.path.abspath(__file__)))
 REPO = os.environ.get("VERIF_REPO", "/repo")
-CHK = os.path.join(VERIF, "bin", "verifchk")
-ENV = dict(os.environ, GOFLAGS="-mod=mod", GOPROXY="off", GOSUMDB="off", GOTOOLCHAIN="local", GOWORK="off")
+CHK = os.environ.get("VERIF_CHK", os.path.join(VERIF, "bin", "verifchk"))
+ENV = dict(os.environ, GOFLAGS="-mod=mod -trimpath", GOPROXY="off", GOSUMDB="off", GOTOOLCHAIN="local", GOWORK="off")
 
 
 def load_mutants():
